@@ -306,3 +306,64 @@ fix_passthru_bad (FILE *fp)
   (*__gmp_free_func) (s, alloc);
   return c;
 }
+
+/* positive: a pointer into the token buffer survives a growth of the buffer */
+long
+fix_bufview_bad (FILE *fp)
+{
+  size_t alloc_size = 16, str_size = 0;
+  char *str = (char *) (*__gmp_allocate_func) (alloc_size);
+  char *mark = NULL;
+  long v;
+  int c = getc (fp);
+  for (;;)
+    {
+      if (str_size >= alloc_size)
+        {
+          size_t old = alloc_size;
+          alloc_size = alloc_size * 3 / 2;
+          str = (char *) (*__gmp_reallocate_func) (str, old, alloc_size);
+        }
+      if (c == EOF || c == ' ')
+        break;
+      if (c == 'p')
+        mark = str + str_size;
+      str[str_size++] = c;
+      c = getc (fp);
+    }
+  str[str_size] = 0;
+  v = mark != NULL ? strtol (mark + 1, NULL, 10) : 0;
+  (*__gmp_free_func) (str, alloc_size);
+  return v;
+}
+
+/* negative: the position is kept as an index and the pointer is formed after the last growth */
+long
+fix_bufview_good (FILE *fp)
+{
+  size_t alloc_size = 16, str_size = 0, markpos = 0;
+  char *str = (char *) (*__gmp_allocate_func) (alloc_size);
+  char *mark;
+  long v;
+  int c = getc (fp);
+  for (;;)
+    {
+      if (str_size >= alloc_size)
+        {
+          size_t old = alloc_size;
+          alloc_size = alloc_size * 3 / 2;
+          str = (char *) (*__gmp_reallocate_func) (str, old, alloc_size);
+        }
+      if (c == EOF || c == ' ')
+        break;
+      if (c == 'p')
+        markpos = str_size;
+      str[str_size++] = c;
+      c = getc (fp);
+    }
+  str[str_size] = 0;
+  mark = str + markpos;
+  v = markpos != 0 ? strtol (mark + 1, NULL, 10) : 0;
+  (*__gmp_free_func) (str, alloc_size);
+  return v;
+}
